@@ -94,9 +94,12 @@ func run(c *engine.Ctx) {
 			per = 26
 		}
 		nClasses := classCount(n)
-		nLab := c.Pick(4, 6)
+		nLab := c.Pick(6, 8)
+		if n == 7 {
+			nLab = c.Pick(4, 8)
+		}
 		if n == 8 {
-			nLab = 2
+			nLab = 3
 		}
 		if n <= 1 {
 			nLab = 1
@@ -139,10 +142,10 @@ func run(c *engine.Ctx) {
 	for n := 0; n <= maxN; n++ {
 		per := classCount(n)
 		if n == 7 {
-			per = 261
+			per = 131
 		}
 		if n == 8 {
-			per = 800
+			per = 200
 		}
 		for lo := 0; lo < classCount(n); lo += per {
 			hi := lo + per
@@ -184,7 +187,7 @@ func run(c *engine.Ctx) {
 			}
 		}
 	})
-	nSeeded := c.Pick(480, 4800)
+	nSeeded := c.Pick(960, 6000)
 	perUnit := 12
 	for u := 0; u*perUnit*10 < nSeeded; u++ {
 		u := u
